@@ -1017,6 +1017,20 @@ func (rc *raftNode) processReady(rd raft.Ready) {
 		}
 	}
 	processedMsgs, hasRequestSnapMsg := rc.processMessages(rd.Messages)
+	// Committed entries that are still unstable in this very Ready (always the case in a
+	// single-replica group, where an entry is appended and committed in one step) must be in
+	// the WAL before the apply loop can see them and answer the client.
+	persisted := false
+	if raft.IsEmptySnap(rd.Snapshot) && len(rd.Entries) > 0 && len(rd.CommittedEntries) > 0 &&
+		rd.CommittedEntries[len(rd.CommittedEntries)-1].Index >= rd.Entries[0].Index {
+		if err := rc.persistRaftState(&rd); err != nil {
+			rc.Errorf("raft save states to disk error: %v", err)
+			go rc.ds.Stop()
+			<-rc.stopc
+			return
+		}
+		persisted = true
+	}
 	if len(rd.CommittedEntries) > 0 || !raft.IsEmptySnap(rd.Snapshot) || hasRequestSnapMsg {
 		var newPublished uint64
 		if !raft.IsEmptySnap(rd.Snapshot) {
@@ -1065,11 +1079,13 @@ func (rc *raftNode) processReady(rd raft.Ready) {
 	start := time.Now()
 	// TODO: save entries, hardstate and snapshot should be atomic, or it may corrupt the raft
 	verifPoint("persist.before")
-	if err := rc.persistRaftState(&rd); err != nil {
-		rc.Errorf("raft save states to disk error: %v", err)
-		go rc.ds.Stop()
-		<-rc.stopc
-		return
+	if !persisted {
+		if err := rc.persistRaftState(&rd); err != nil {
+			rc.Errorf("raft save states to disk error: %v", err)
+			go rc.ds.Stop()
+			<-rc.stopc
+			return
+		}
 	}
 	cost := time.Since(start)
 	if cost >= raftSlow/2 {
